@@ -859,8 +859,9 @@ class IkeSa(object):
 
             try:
                 xfrm.Xfrm.create_child_sa(self, child_sa, child_sa_keyring, is_initiator=False)
-            except xfrm.NetlinkError:
-                # the kernel refused one of the two SAs: remove the other one and do not track the CHILD_SA
+            except (xfrm.NetlinkError, OSError):
+                # the kernel refused one of the two SAs, or the request did not even reach it: remove the other one and
+                # do not track the CHILD_SA
                 xfrm.Xfrm.delete_child_sa(self, child_sa)
                 raise
             self.child_sas.append(child_sa)
